@@ -478,7 +478,15 @@ funcstore(struct func *f, struct type *t, enum typequal tq, struct lvalue lval, 
 		if (bits) {
 			mask = 0xffffffffffffffffu >> 64 - t->size * 8 + bits << lval.bits.before;
 			v = funcinst(f, ISHL, qt.base, v, mkintconst(lval.bits.before));
-			r = funcbits(f, t, v, lval.bits);
+			r = v;
+			/* funcbits() expects the bits above a 1- or 2-byte unit to be an extension of it, as after a load */
+			if (!lval.bits.after && t->size < 4) {
+				if (t->size == 1)
+					r = funcinst(f, t->u.basic.issigned ? IEXTSB : IEXTUB, 'w', r, NULL);
+				else
+					r = funcinst(f, t->u.basic.issigned ? IEXTSH : IEXTUH, 'w', r, NULL);
+			}
+			r = funcbits(f, t, r, lval.bits);
 			v = funcinst(f, IAND, qt.base, v, mkintconst(mask));
 			v = funcinst(f, IOR, qt.base, v,
 				funcinst(f, IAND, qt.base,
